@@ -87,7 +87,16 @@ pub fn proto_to_ast(pf: &ProtoFilter) -> J {
 pub fn proj_entry(e: &EntrySealedCommitted) -> J {
     let mut attrs = Map::new();
     for (a, vs) in e.get_ava_iter() {
-        let mut v: Vec<String> = vs.to_proto_string_clone_iter().map(|s| vstr(&s)).collect();
+        let an = a.as_str();
+        // values that depend on the random server uuid / random keys are normalised so that logs are
+        // reproducible: change ids keep their timestamp, key material and keyed hashes become "<set>"
+        let mut v: Vec<String> = if an == "key_internal_data" || an == "name_history" || an.contains("private_key") || an.contains("secret") {
+            vec!["<set>".to_string()]
+        } else if an.ends_with("_cid") {
+            vs.to_proto_string_clone_iter().map(|s| s.chars().take(32).collect()).collect()
+        } else {
+            vs.to_proto_string_clone_iter().map(|s| vstr(&s)).collect()
+        };
         v.sort();
         v.dedup();
         attrs.insert(a.to_string(), json!(v));
